@@ -84,9 +84,26 @@ class DefaultHandler(BaseHandler):
             LOG.info('The last bgp message seq number is %s', last_msg_seq)
 
     @staticmethod
+    def drop_unterminated_line(file_name):
+        """
+        A crash in the middle of a write leaves a last line without its
+        newline. That is not a complete record: cut the file back to the
+        end of its last complete line.
+        """
+        with open(file_name, 'rb+') as fh:
+            end = 0
+            torn = False
+            for line in fh:
+                torn = not line.endswith(b'\n')
+                if not torn:
+                    end += len(line)
+            if torn:
+                fh.truncate(end)
+
+    @staticmethod
     def get_last_seq_and_file(msg_path):
         """
-        Get the last sequence number in the latest log file.
+        Get the last sequence number in the log files and the latest log file.
         """
         LOG.info('get the last bgp message seq for this peer')
         last_seq = 0
@@ -97,16 +114,21 @@ class DefaultHandler(BaseHandler):
         file_list.sort()
         msg_file_name = file_list[-1]
         try:
-            with open(msg_path + msg_file_name, 'r') as fh:
-                line = None
-                for line in fh:
-                    pass
-                last = line
-                if line:
-                    if last.startswith('['):
-                        last_seq = eval(last)[1]
-                    elif last.startswith('{'):
-                        last_seq = json.loads(last)['seq']
+            DefaultHandler.drop_unterminated_line(msg_path + msg_file_name)
+            # the latest file holds no record yet right after a rotation:
+            # the last record is in an older file then
+            for file_name in reversed(file_list):
+                with open(msg_path + file_name, 'r') as fh:
+                    line = None
+                    for line in fh:
+                        pass
+                    last = line
+                    if line:
+                        if last.startswith('['):
+                            last_seq = eval(last)[1]
+                        elif last.startswith('{'):
+                            last_seq = json.loads(last)['seq']
+                        break
         except OSError:
             LOG.error('Error when reading bgp message files')
         except Exception as e:
